@@ -768,7 +768,46 @@ func (c *ctx) runOp(line string) string {
 		if !ok1 || !ok2 {
 			return "bad-op"
 		}
-		return hs(caco3.VerifDirFilePath(unhs(dw), unhl(pw)...))
+		d, ps := unhs(dw), unhl(pw)
+		got := caco3.VerifDirFilePath(d, ps...)
+		// direct oracle: a plain name is placed at exactly <dir>/<name>
+		var parts []string
+		plain := strings.HasPrefix(d, "/") && plainPath(strings.TrimPrefix(d, "/")) && d != "/"
+		for _, x := range ps {
+			if !plainPath(x) {
+				plain = false
+			}
+			if x != "" {
+				parts = append(parts, x)
+			}
+		}
+		if plain {
+			want := d
+			if len(parts) > 0 {
+				want = d + "/" + strings.Join(parts, "/")
+			}
+			if got != want {
+				c.rep.Fail("resolved-name-misplaced", fmt.Sprintf("dirFilePath(%q, %q) = %q, the plain name belongs at %q", d, ps, got, want), []string{line})
+			}
+		}
+		return hs(got)
+	case "subdirs":
+		pw, ok1 := kv(ws[1:], "p")
+		dw, ok2 := kv(ws[1:], "dirs")
+		if !ok1 || !ok2 {
+			return "bad-op"
+		}
+		pk, dirs := unhs(pw), unhl(dw)
+		got := caco3.VerifSubBuildDirs(pk, &caco3.SubBuilds{Dirs: dirs})
+		if len(got) != len(dirs) {
+			c.rep.Fail("subbuild-dirs-invented", fmt.Sprintf("sub_builds %q in package %q names %d directories: %q", dirs, pk, len(got), got), []string{line})
+		}
+		for _, g := range got {
+			if !plainPath(g) || (plainPath(pk) && !underSegs(segs(pk), segs(g))) {
+				c.rep.Fail("subbuild-dir-escapes-package", fmt.Sprintf("sub_builds %q in package %q reads the build file of %q, outside the package", dirs, pk, g), []string{line})
+			}
+		}
+		return hl(got)
 	case "match", "fmatch":
 		pw, ok1 := kv(ws[1:], "pat")
 		nw, ok2 := kv(ws[1:], "name")
@@ -1294,6 +1333,50 @@ func (g *gen) exclusionSiblings() {
 	g.add(fmt.Sprintf("walk tree=%s d=%s", hl(t), hs("p/d")), true)
 }
 
+// names that start with a dot (.env, .ci/x, ..data, ...) at the top level of the
+// source and output trees: as sources, in selects, as rule names / outputs, as
+// sub-build directories
+func (g *gen) dotNames() {
+	names := []string{".env", ".ci/x", "..data", "...", ".a/.b", "..a/b", "a/.b", ".e", "..", ".", ".../x", "./.env", "/.env", "//..data"}
+	for _, n := range names {
+		for _, d := range []string{"/r/src", "/r/out"} {
+			g.add(fmt.Sprintf("dfp d=%s ps=%s", hs(d), hl([]string{n})), true)
+			g.add(fmt.Sprintf("dfp d=%s ps=%s", hs(d), hl([]string{"", n})), true)
+			g.add(fmt.Sprintf("dfp d=%s ps=%s", hs(d), hl([]string{n, "BUILD.caco3"})), true)
+			g.add(fmt.Sprintf("dfp d=%s ps=%s", hs(d), hl([]string{"p", n})), true)
+		}
+		for _, p := range []string{"", "p", ".p", "..p/q"} {
+			g.add(fmt.Sprintf("rel p=%s f=%s", hs(p), hs(n)), true)
+			g.add(fmt.Sprintf("mk p=%s f=%s", hs(p), hs(n)), true)
+			g.add(fmt.Sprintf("subdirs p=%s dirs=%s", hs(p), hl([]string{n})), true)
+		}
+		g.rep.Count("dot-names:paths")
+	}
+	for _, p := range []string{"", "p", "p/q", ".p"} {
+		for _, dirs := range [][]string{{"q"}, {"q", "r"}, {".", "", "x/.."}, {"../q", "/q", "q/r", ".q"}, nil} {
+			g.add(fmt.Sprintf("subdirs p=%s dirs=%s", hs(p), hl(dirs)), true)
+			g.rep.Count("subdirs")
+		}
+	}
+	tree := []string{"...", "..data", ".ci/x", ".e2", ".env", "ci/x", "data", "env", "p/.env", "p/env"}
+	sels := []string{".e*", ".*", "**", ".ci/*", ".ci/**", "..d*", "*", "...", ".env", "p/.e*", "*/.e*"}
+	for _, sel := range sels {
+		g.fsetOp("fset", "", tree, "s", nil, []string{sel}, nil, nil)
+		g.fsetOp("fset", "", tree, ".ci/zz", []string{".env"}, []string{sel}, []string{".e2", ".ci/"}, nil)
+		g.fsetOp("fset", "p", tree, "s", nil, []string{strings.TrimPrefix(sel, "p/")}, nil, nil)
+		g.add(fmt.Sprintf("glob tree=%s pat=%s", hl(tree), hs(caco3.VerifMakeRelPath("", sel))), true)
+		g.rep.Count("dot-names:file-sets")
+	}
+	for _, d := range []string{"", ".ci", "p", "..data"} {
+		g.add(fmt.Sprintf("walk tree=%s d=%s", hl(tree), hs(d)), true)
+	}
+	for _, name := range []string{"zz", ".ci/zz", "..zz", ".zz"} {
+		g.fsetOp("build", "", tree, name, []string{".env", "..data"}, []string{".e*"}, nil, nil)
+		g.fsetOp("build", "", tree, name, nil, []string{".ci/**", "..."}, nil, nil)
+		g.rep.Count("dot-names:builds")
+	}
+}
+
 func main() {
 	log.SetOutput(io.Discard)
 	f := hx.ParseFlags()
@@ -1345,6 +1428,7 @@ func main() {
 			g.climbingSelects()
 			g.staleOutputs()
 			g.exclusionSiblings()
+			g.dotNames()
 		} else {
 			g.pathOps(4, false)
 			g.randomPathOps(2000)
@@ -1354,6 +1438,7 @@ func main() {
 			g.climbingSelects()
 			g.staleOutputs()
 			g.exclusionSiblings()
+			g.dotNames()
 		}
 		rep.Exhaustive = true
 		ops = g.ops
